@@ -151,6 +151,11 @@ def explore(job, on_path, tier='quick', max_paths=40000, max_seconds=900, offset
                 modrm, sibb = sym[0].t, sym[1].t
                 is_sib = z3.And(z3.Extract(2, 0, modrm) == 4, z3.Extract(7, 6, modrm) != 3)
                 eng.assume(z3.Implies(is_sib, instr._in_set(sibb, SIB_REPS)))
+        if sibmode == 'one' and _row_has_modrm(opc, last):
+            # the thinnest slice: one register form and two memory forms per reg value (for clauses about the mnemonic, not the addressing form)
+            modrm = sym[0].t
+            mod, rm = z3.Extract(7, 6, modrm), z3.Extract(2, 0, modrm)
+            eng.assume(z3.Or(z3.And(mod == 3, rm == 1), z3.And(mod == 0, rm == 0), z3.And(mod == 1, rm == 3)))
         if sibmode == 'min' and _row_has_modrm(opc, last):
             # a thin slice of the ModRM space (every reg value; few rm / SIB forms): for clauses that cannot
             # depend on the addressing form
